@@ -32,6 +32,8 @@ EXHAUSTIVE_SCOPE = {"quick": "all interleavings of 2 solvers x 4 steps and 3 sol
                     "thorough": "all interleavings of 2 solvers x 4 steps and 3 solvers x 2 steps per drawn problem tuple"}
 NONTRIVIAL_FLOOR = {"quick": 150, "thorough": 1500}
 CAP = 70
+import numpy as _np
+NP_ERR = dict(_np.geterr())
 
 
 def plan(tier):
@@ -153,6 +155,10 @@ class IsolationMachine(MachineMixin, RuleBasedStateMachine):
                 self.foreign_after_read.add(j)
 
     def _check_all(self, what):
+        import numpy as np
+        if np.geterr() != NP_ERR:
+            fail("after %s numpy's floating-point error handling is %r, it was %r: a process-wide setting other "
+                 "solvers' objectives depend on" % (what, np.geterr(), NP_ERR))
         for j, lv in enumerate(self.live):
             lv.check("after %s, solver %d: " % (what, j))
             if j in self.foreign_after_read and lv.solutions:
